@@ -34,7 +34,7 @@ theorem chunk_independent (c : Cfg) (chunks : List Bytes) :
   · rw [feedAll_stream c hs chunks init inv_init]; simp [feed, hs]
 
 /-- two chunkings of the same bytes give the same events and state -/
-theorem chunk_independent' (c : Cfg) (xs ys : List Bytes) (h : xs.flatten = ys.flatten) :
+theorem chunk_independent_pair (c : Cfg) (xs ys : List Bytes) (h : xs.flatten = ys.flatten) :
     feedAll c init xs = feedAll c init ys := by
   rw [chunk_independent, chunk_independent, h]
 
